@@ -210,9 +210,17 @@ Theorem C08_geom_jaccard_per_base :
 Proof. exact geom_jaccard_is_per_base. Qed.
 Print Assumptions C08_geom_jaccard_per_base.
 
-(* LINK: for every correspondence case inside the property's domain — all 18 case classes: pileup, bedgraph pileup,
+(* jaccard / forbes on a genome with several contigs (the contingency tables of the contigs are added up): the exact
+   fractions are the genome-wide per-base counts — a contig may carry intervals of one set only, or of none *)
+Theorem C08_similarity_genome_per_base :
+  forall g, genome_ok_prop g ->
+  jaccard_genome_model g = Ret (jaccard_genome_spec g) /\ forbes_genome_model g = Ret (forbes_genome_spec g).
+Proof. intros g H. exact (conj (jaccard_genome_is_per_base g H) (forbes_genome_is_per_base g H)). Qed.
+Print Assumptions C08_similarity_genome_per_base.
+
+(* LINK: for every correspondence case inside the property's domain — all 20 case classes: pileup, bedgraph pileup,
    mask, merge, the three sort routes, count_overlap, intersect, unique_intersect, jaccard, forbes, Geometry.jaccard,
-   clip, extend_to_size, Geometry pileup / mask / merge — "the implementation's observation equals the model's output"
+   clip, extend_to_size, Geometry pileup / mask / merge, jaccard / forbes on several contigs — "the implementation's observation equals the model's output"
    (model_ok) implies "the observation satisfies the property" (spec_ok).  Unconditional since the repair a68b397
    (jaccard / forbes accept an interval set without entries; an empty union / an empty marginal gives 0/0 = nan). *)
 Theorem C08_model_implies_spec :
